@@ -24,6 +24,8 @@ import (
 // bytes: what the backend receives for a forwarded request and what the client receives for the backend's answer,
 // byte for byte (C03), with and without a write-consistency override in force (C12).
 // op:   V:<version> Z:<compression|-> U:<unsupported consistencies, comma separated|-> R:<override> S:<seed of the request/response generator> N:<requests>
+//       G:<n> (optional): at the end the client pipelines n SELECTs with 16 KiB answers without reading in between, then reads
+//       them all: every answer must arrive, with the bytes the backend sent for that request (one token for the burst)
 // real: per request one token:  same | stream-only | <what differs>   (request path), then "/" and the response path token
 
 func init() { streams["bytes"] = stream{gen: genBytes, run: runBytes} }
@@ -105,9 +107,23 @@ func runBytes(op string) (out string) {
 	respMsgs := map[int16]message.Message{}
 	var held []*fakecass.Request
 	holding := false
+	bursting := false
+	burstReq := map[int]*fakecass.Request{}
 	env.Cluster.Handler = func(rq *fakecass.Request) fakecass.Response {
 		mu.Lock()
 		defer mu.Unlock()
+		if bursting {
+			k := -1
+			if rq.Frame != nil {
+				if q, ok := rq.Frame.Body.Message.(*message.Query); ok {
+					if i := strings.LastIndex(q.Query, "= "); i >= 0 {
+						k, _ = strconv.Atoi(q.Query[i+2:])
+					}
+				}
+			}
+			burstReq[k] = rq
+			return fakecass.Response{Kind: fakecass.RespMsg, Msg: rowsWith(fmt.Sprintf("%06d", k) + strings.Repeat("v", 16*1024))}
+		}
 		if holding {
 			held = append(held, rq)
 			if len(held) <= 2 {
@@ -445,6 +461,54 @@ func runBytes(op string) (out string) {
 		}
 		res = append(res, tok+"/"+rtok)
 	}
+	if g, _ := strconv.Atoi(par["G"]); mainOK && g > 0 {
+		mu.Lock()
+		holding, bursting = false, true
+		mu.Unlock()
+		go func() {
+			for i := 1; i <= g; i++ {
+				if cl.Send(int16(i), &message.Query{Query: fmt.Sprintf("SELECT v FROM ks.burst WHERE k = %d", i), Options: &message.QueryOptions{Consistency: primitive.ConsistencyLevelOne}}) != nil {
+					return
+				}
+			}
+		}()
+		time.Sleep(300 * time.Millisecond) // let the answers pile up before the first one is read
+		seen, differs := map[int16][]byte{}, 0
+		for len(seen) < g {
+			reply, err := cl.Recv(3 * time.Second)
+			if err != nil || reply.Header == nil {
+				break
+			}
+			if _, dup := seen[reply.Header.StreamId]; dup {
+				differs++
+			}
+			seen[reply.Header.StreamId] = reply.RawBody
+		}
+		time.Sleep(50 * time.Millisecond) // the backend notes what it wrote after writing it
+		for st, body := range seen {
+			mu.Lock()
+			rq := burstReq[int(st)]
+			mu.Unlock()
+			if rq == nil || len(rq.Sent()) < 9 || !bytes.Equal(body, rq.Sent()[9:]) {
+				differs++
+				if os.Getenv("VH_DEBUG") != "" && differs < 4 {
+					if rq == nil {
+						fmt.Fprintf(os.Stderr, "burst %d: no request at the backend\n", st)
+					} else {
+						fmt.Fprintf(os.Stderr, "burst %d: reply %d bytes %x.. backend sent %d bytes %x..\n", st, len(body), body[:min(len(body), 24)], len(rq.Sent()), rq.Sent()[:min(len(rq.Sent()), 33)])
+					}
+				}
+			}
+		}
+		switch {
+		case len(seen) < g:
+			res = append(res, fmt.Sprintf("same/burst-lost-%d-of-%d", g-len(seen), g))
+		case differs > 0:
+			res = append(res, fmt.Sprintf("same/burst-differs-%d", differs))
+		default:
+			res = append(res, "same/same")
+		}
+	}
 	return strings.Join(res, " ")
 }
 
@@ -516,6 +580,8 @@ func genBytes(e *emitter, r *rng.R, n int, tier string) {
 	versions := []int{3, 4, 5, 65, 66}
 	comps := []string{"-", "lz4", "snappy"}
 	unsup := []string{"-", "-", "0", "1", "8,9", "0,1,2,3,4,5,6,7,8,9,10", "4,6", "10"}
+	// a burst of pipelined requests whose answers pile up before the client reads any of them
+	ops = append(ops, "V:4 Z:- U:- R:6 S:11 N:3 G:2000", "V:5 Z:lz4 U:1 R:6 S:12 N:3 G:1900", "V:3 Z:snappy U:- R:6 S:13 N:3 G:1900")
 	for i := 0; i < n; i++ {
 		rr := r.Fork(uint64(i))
 		ops = append(ops, fmt.Sprintf("V:%d Z:%s U:%s R:%d S:%d N:%d", versions[rr.Intn(5)], comps[rr.Intn(3)], unsup[rr.Intn(len(unsup))], []int{6, 1, 4, 10}[rr.Intn(4)], rr.Intn(1<<30), 6+rr.Intn(6)))
